@@ -1,23 +1,24 @@
 --------------------------- MODULE MC_FmtShared ---------------------------
 EXTENDS FmtShared, Json
 CONSTANTS MaxVariants, EmitCases, Traits
-VARIABLES vs, s, D
+VARIABLES vs, s, D, er
 
-Variants == {v \in [kind : {"unit", "t1", "n1", "t2"}, own : {"none", "general", "bare", "text"}] :
-                (v.kind = "unit" => v.own # "bare")}
-Init == vs = <<>> /\ s \in SharedForms /\ D \in Traits
-Add  == Len(vs) < MaxVariants /\ \E v \in Variants : vs' = Append(vs, v) /\ UNCHANGED <<s, D>>
+Variants == {v \in [kind : {"unit", "t1", "n1", "t2"}, own : {"none", "general", "bare", "text"}, vr : BOOLEAN] :
+                /\ (v.kind = "unit" => v.own # "bare")
+                /\ (v.vr => v.kind = "unit" /\ v.own = "none" /\ D # "Debug")}   \* where a casing shows
+Init == vs = <<>> /\ s \in SharedForms /\ D \in Traits /\ er \in {"none", "lower"} /\ (D = "Debug" => er = "none")
+Add  == Len(vs) < MaxVariants /\ \E v \in Variants : vs' = Append(vs, v) /\ UNCHANGED <<s, D, er>>
 Next == Add
-Spec == Init /\ [][Next]_<<vs, s, D>>
+Spec == Init /\ [][Next]_<<vs, s, D, er>>
 
-P_C07 == \A j \in 1..Len(vs) : Agrees(vs[j], s, D)
+P_C07 == \A j \in 1..Len(vs) : Agrees(vs[j], s, D, er)
 \* a default never leaks into a variant that has its own attribute; a wrapper always shows
 P_C07_DefaultOnly == \A j \in 1..Len(vs) :
-    (s # "none" /\ ~Mentions(s) /\ vs[j].own # "none" /\ D # "Debug") => DocText(vs[j], s, D) = Own(vs[j])
+    (s # "none" /\ ~Mentions(s) /\ vs[j].own # "none" /\ D # "Debug") => DocText(vs[j], s, D, er) = Own(vs[j], er)
 P_C07_Wrap == \A j \in 1..Len(vs) :
-    (s = "wrap" /\ D # "Debug" /\ Own(vs[j]) # REJECT) => DocText(vs[j], s, D) = <<"T:[">> \o Own(vs[j]) \o <<"T:]">>
-EnumDoc == [j \in 1..Len(vs) |-> DocText(vs[j], s, D)]
+    (s = "wrap" /\ D # "Debug" /\ Own(vs[j], er) # REJECT) => DocText(vs[j], s, D, er) = <<"T:[">> \o Own(vs[j], er) \o <<"T:]">>
+EnumDoc == [j \in 1..Len(vs) |-> DocText(vs[j], s, D, er)]
 Emit == EmitCases /\ vs # <<>> =>
-    PrintT(<<"CASE", ToJson([vs |-> vs, s |-> s, D |-> D, doc |-> EnumDoc,
+    PrintT(<<"CASE", ToJson([vs |-> vs, s |-> s, D |-> D, er |-> er, doc |-> EnumDoc,
                              reject |-> \E j \in 1..Len(vs) : EnumDoc[j] = REJECT])>>)
 =============================================================================
